@@ -28,8 +28,8 @@ from symv.proxies import SReal, boolean, lift, model_env, real
 from . import dailyframe as F
 
 EXPLANATION = "C04: fit/predict gate logic of the three model families with stubbed numerics; persistence of disqualifications through to_json/from_json (daily, billing)."
-BOUNDS = {"quick": dict(dq_list_length="0..2", timezones=["US/Pacific", "US/Eastern", "UTC"], classes=["baseline", "reporting", "foreign"]),
-          "thorough": dict(dq_list_length="0..3", timezones=["US/Pacific", "US/Eastern", "UTC", "Europe/London"], classes=["baseline", "reporting", "foreign"])}
+BOUNDS = {"quick": dict(dq_list_length="0..2", timezones=["US/Pacific", "US/Eastern", "UTC", "America/Denver", "America/Phoenix"], classes=["baseline", "reporting", "foreign"]),
+          "thorough": dict(dq_list_length="0..3", timezones=["US/Pacific", "US/Eastern", "UTC", "America/Denver", "America/Phoenix", "Europe/London"], classes=["baseline", "reporting", "foreign"])}
 STUBS = ["_fit/_adaptive_fit: set error['CVRMSE'] / baseline_metrics to fresh symbols and is_fitted=True", "_predict: returns a sentinel frame",
          "data objects: object.__new__(RealDataClass) with the attributes the gate reads (disqualification, warnings, tz, df)",
          "hourly settings thresholds: attribute proxy over the real settings object"]
@@ -40,7 +40,7 @@ ASSUMPTIONS = ["whether _fit succeeds numerically is outside the claim (C-level 
 EXPECTED_REGIMES = ["fit refused for disqualified data", "fit with override", "poor fit adds a disqualification", "predict refused (DisqualifiedModelError)",
                     "predict with override", "timezone mismatch", "foreign data class", "unfitted model", "metric undefined (None)"]
 SENTINEL = "FRAME"
-TZS = ["US/Pacific", "US/Eastern", "UTC"]
+TZS = ["US/Pacific", "US/Eastern", "UTC", "America/Denver", "America/Phoenix"]  # Denver/Phoenix: same offset in winter, different zones
 
 
 def ENCODED():
@@ -276,7 +276,8 @@ def judge_predict(fam, cfg, r):
 def replay_persist(inp):
     fam, ndq, ignore = inp["fam"], inp["ndq"], inp["ignore"]
     Model = FAM[fam][0]
-    dq = [dict(qualified_name=f"eemeter.sufficiency_criteria.dq{i}", description="d", data={"x": 1.0}) for i in range(ndq)]
+    # stored records with and without a payload (several sufficiency disqualifications carry data={})
+    dq = [dict(qualified_name=f"eemeter.sufficiency_criteria.dq{i}", description="d", data={} if i % 2 == 0 else {"x": 1.0}) for i in range(ndq)]
     m1 = Model.from_dict(F.doc("single", Model, tz="US/Pacific", dq=dq))
     m2 = Model.from_json(m1.to_json())
     m2._predict = lambda *a, **k: SENTINEL
